@@ -148,6 +148,27 @@ def conflicting_interactions(structure3d):
             x, y1, y2 = xs[i], ys[-1 - 2 * i], ys[-2 - 2 * i]
             for y in (y1, y2):
                 pairs.append(BasePair(res(x), res(y), LeontisWesthof.cWW, None))
+    # ties that only the FULL residue identity can break: one residue claimed by two equal-rank partners that carry the same
+    # residue number (and name) in different chains
+    comp = {"G": "C", "C": "G", "A": "UT", "U": "A", "T": "A"}
+    by_num = {}
+    for r in nts:
+        by_num.setdefault((r.number, r.one_letter_name.upper()), []).append(r)
+    done = 0
+    for (num, letter), group in sorted(by_num.items(), key=lambda kv: (kv[0][0], kv[0][1])):
+        chains = {}
+        for r in group:
+            chains.setdefault(r.chain, r)
+        if len(chains) < 2 or done >= 3:
+            continue
+        y1, y2 = [chains[c] for c in sorted(chains)][:2]
+        xs = [r for r in nts if r.one_letter_name.upper() in comp.get(letter, "") and r is not y1 and r is not y2]
+        if not xs:
+            continue
+        x = xs[len(xs) // 2]
+        for y in (y2, y1):
+            pairs.append(BasePair(res(x), res(y), LeontisWesthof.cWW, None))
+        done += 1
     stackings = [Stacking(res(nts[i]), res(nts[i + 1]), StackingTopology.upward) for i in range(0, max(0, len(nts) - 1), 3)]
     return BaseInteractions(pairs, stackings, [], [], [])
 
